@@ -482,6 +482,16 @@ package leveldb
 //@   safety off
 //@   guarantees [C04:recovered-state-is-the-manifests-last-word] err == nil ==> (s.stNextFileNum == rec.nextFileNum && s.stJournalNum == rec.journalNum && s.stSeqNum == rec.seqNum)
 
+// Applying a batch to the write buffer: record i is entered under the batch's first sequence number plus i, with its
+// own kind, key and value (the same numbering the journal replay uses, below).
+//@ func (*Batch).putMem
+//@   props C04 C01
+//@   safety off
+//@   at before call makeInternalKey#1
+//@     assert [C01,C04:record-i-is-entered-under-the-first-sequence-number-plus-i] arg2 == seq + i && arg3 == index.keyType && sameslice(arg1, b.data[index.keyPos : index.keyPos + index.keyLen])
+//@   at before call (*DB).Put#1
+//@     assert [C01,C04:record-is-entered-with-its-own-value] (index.valueLen != 0 ==> sameslice(arg1, b.data[index.valuePos : index.valuePos + index.valueLen])) && (index.valueLen == 0 ==> len(arg1) == 0)
+
 // Replaying a journal record: the i-th record of the group is entered under the group's sequence number plus i (the
 // numbers the writer gave them), the group is not older than what was already replayed, and exactly as many records
 // are entered as the header announces.
@@ -1618,6 +1628,21 @@ package leveldb
 //@   props C02 C11 C01 C03
 //@   trusted
 
+// C01: of the two write buffers the one still being written (newer) is asked before the frozen one (older, waiting to
+// be flushed), so that the newer entry of a key wins.
+//@ func (*DB).getMems
+//@   props C01 C11
+//@   safety off
+//@   ensures [C01,C11:effective-then-frozen] e == db.mem && f == db.frozenMem && db.mem == old(db.mem) && db.frozenMem == old(db.frozenMem)
+//@ func (*DB).getEffectiveMem
+//@   props C01 C11
+//@   safety off
+//@   ensures [C01,C11:the-buffer-being-written] result == db.mem && db.mem == old(db.mem)
+//@ func (*DB).getFrozenMem
+//@   props C01 C11
+//@   safety off
+//@   ensures [C01,C11:the-buffer-waiting-to-be-flushed] result == db.frozenMem && db.frozenMem == old(db.frozenMem)
+
 // C01 / C11: the first buffer that knows the key (a value, a deletion marker, or an error) decides the lookup:
 // nothing older is consulted after it, and the answer given is that buffer's answer. For a transaction this is what
 // makes its own deletions visible to itself.
@@ -1628,6 +1653,8 @@ package leveldb
 //@   props C01 C11
 //@   at entry
 //@     ghost gMemOK = false
+//@   at before call memGet#2
+//@     assert [C01,C11:newer-write-buffer-is-asked-before-the-older] (rangeidx == 0 ==> (em != nil && arg0 == em.DB && em == old(db.mem))) && (rangeidx == 1 ==> (fm != nil && arg0 == fm.DB && fm == old(db.frozenMem)))
 //@   at call memGet#1
 //@     ghost gMemOK = ret0
 //@     ghost gMemFound = (ret2 == nil)
@@ -1647,6 +1674,8 @@ package leveldb
 //@   props C01 C11
 //@   at entry
 //@     ghost gMemOK = false
+//@   at before call memGet#2
+//@     assert [C01,C11:newer-write-buffer-is-asked-before-the-older] (rangeidx == 0 ==> (em != nil && arg0 == em.DB && em == old(db.mem))) && (rangeidx == 1 ==> (fm != nil && arg0 == fm.DB && fm == old(db.frozenMem)))
 //@   at call memGet#1
 //@     ghost gMemOK = ret0
 //@     ghost gMemFound = (ret2 == nil)
